@@ -125,6 +125,37 @@ count_all(struct lyd_node *first)
 
 static long other_module;
 
+/* result set of an XPath whose last name test is n's: returns 1 when it holds n and, apart from instances of n's schema
+ * node under n's parent, only equally named siblings of ANOTHER module selected by an unprefixed name test (counted in
+ * *nother: known finding xpath-noprefix-other-module); -1 when anything else is in it; 0 when n is missing */
+static int
+classify_set(const struct ly_set *set, const struct lyd_node *n, const char *path, uint32_t *nother)
+{
+    const struct lyd_node *par = lyd_parent(n);
+    const char *last = strrchr(path, '/');
+    int found = 0, unprefixed;
+    uint32_t i;
+
+    /* the last segment carries a module prefix iff a ':' comes before any predicate */
+    unprefixed = !last || (strcspn(last, ":[") == strlen(last)) || (last[strcspn(last, ":[")] == '[');
+    *nother = 0;
+    for (i = 0; set && (i < set->count); ++i) {
+        const struct lyd_node *x = set->dnodes[i];
+
+        if (x == n) {
+            found = 1;
+        } else if (x->schema && (x->schema == n->schema) && (lyd_parent(x) == par)) {
+            /* another instance */
+        } else if (unprefixed && x->schema && (lyd_parent(x) == par) && !strcmp(x->schema->name, n->schema->name) &&
+                (x->schema->module != n->schema->module)) {
+            ++(*nother);
+        } else {
+            return -1;
+        }
+    }
+    return found;
+}
+
 #define BAD(what, rcv, pth, extra) do { printf("BAD %s node=%ld rc=%d path=", what, idx, (int)(rcv)); puthex(pth); \
         if (extra) { printf(" x="); puthex(extra); } bad = 1; } while (0)
 
@@ -136,8 +167,8 @@ check_node(const struct ly_ctx *ctx, struct lyd_node *root, struct lyd_node *n, 
     const char *val = NULL;
     struct lyd_node *m = NULL, *par = lyd_parent(n), *tree = NULL, *np = NULL, *nn = NULL, *exp = NULL, *it;
     struct ly_set *set = NULL;
-    uint32_t nopts = out ? LYD_NEW_VAL_OUTPUT : 0, ninst = 0, i;
-    int bad = 0, dup = is_dup_inst(n->schema), found, nother;
+    uint32_t nopts = out ? LYD_NEW_VAL_OUTPUT : 0, ninst = 0, i, nother = 0;
+    int bad = 0, dup = is_dup_inst(n->schema), found;
     long before;
     LY_ERR rc;
 
@@ -169,7 +200,10 @@ check_node(const struct ly_ctx *ctx, struct lyd_node *root, struct lyd_node *n, 
     }
     /* X */
     rc = lyd_find_xpath(root, p, &set);
-    if (rc || !set || (set->count != 1) || (set->dnodes[0] != n)) {
+    if (!rc && set && (classify_set(set, n, p, &nother) == 1) && nother && (set->count == 1 + nother)) {
+        /* exactly n plus equally named nodes of another module: known finding, counted */
+        ++other_module;
+    } else if (rc || !set || (set->count != 1) || (set->dnodes[0] != n)) {
         char cnt[32];
 
         snprintf(cnt, sizeof cnt, "count=%u", set ? set->count : 0);
@@ -184,22 +218,7 @@ check_node(const struct ly_ctx *ctx, struct lyd_node *root, struct lyd_node *n, 
             ++ninst;
         }
     }
-    found = 0;
-    nother = 0;
-    for (i = 0; !rc && set && (i < set->count); ++i) {
-        if (set->dnodes[i] == n) {
-            found = 1;
-        }
-        if ((set->dnodes[i]->schema != n->schema) && set->dnodes[i]->schema && (lyd_parent(set->dnodes[i]) == par) &&
-                !strcmp(set->dnodes[i]->schema->name, n->schema->name) && (set->dnodes[i]->schema->module != n->schema->module) &&
-                !strchr(p0 + (strrchr(p0, '/') - p0), ':')) {
-            /* unprefixed last name test also selects the equally named sibling of another module (known finding) */
-            ++nother;
-        } else if ((set->dnodes[i]->schema != n->schema) || (lyd_parent(set->dnodes[i]) != par)) {
-            found = -1;
-            break;
-        }
-    }
+    found = rc ? 0 : classify_set(set, n, p0, &nother);
     if (nother) {
         ++other_module;
     }
